@@ -251,6 +251,45 @@ pub open spec fn range_ok(b: Seq<u8>, lo: int, hi: int) -> bool { 0 <= lo <= hi 
 """
 
 
+GLUE_CLIENT = r"""
+// client lemma (ours, not repository code): the call shape `rope.byte_slice(a..b)` of ReplaceSource::rope.  std's
+// RangeBounds impl for Range<usize> returns (Included(&start), Excluded(&end)) - the universal instance with those bounds -
+// so the contract unit replace_splice uses for `byte_slice(range: Range<usize>)` is this one.
+fn client_byte_slice_range<'a>(r: &Rope<'a>, a: usize, b: usize) -> (o: Rope<'a>)
+  requires r.wf(), a <= b <= r.bytes().len(), is_char_boundary(r.bytes(), a as int), is_char_boundary(r.bytes(), b as int)
+  ensures o.wf(), o.bytes() == r.bytes().subrange(a as int, b as int)
+{
+  r.byte_slice((Bound::Included(a), Bound::Excluded(b)))
+}
+"""
+
+
+def build_wrappers(u):
+    """byte_slice (panics on an invalid range - so its precondition is range_ok and the panic closure gets `requires false`)
+    and get_byte_slice (None exactly for invalid ranges)"""
+    bs = u.method("src/rope.rs", IMPL, "byte_slice")
+    g2_universal_range(bs, "byte_slice")
+    bs.rule("C6", r"\.unwrap_or_else\(\|e\|\s*\{", ".unwrap_or_else(|e: Error| -> (r: Rope<'a>) requires false {", fn="byte_slice")
+    bs.sig("byte_slice", [
+        ("Rope::byte_slice.requires", "contract", "requires self.wf(), range_ok(self.bytes(), lo_of(range.0), hi_of(range.1, self.bytes().len() as int))"),
+        ("Rope::byte_slice.ensures", "contract", "ensures r.wf(), r.bytes() == self.bytes().subrange(lo_of(range.0), hi_of(range.1, self.bytes().len() as int))"),
+    ], ret="r")
+    bs.body_start("byte_slice", "canary.Rope::byte_slice", "canary", "proof { assert(false); }")
+    gs = u.method("src/rope.rs", IMPL, "get_byte_slice")
+    g2_universal_range(gs, "get_byte_slice")
+    gs.sig("get_byte_slice", [
+        ("Rope::get_byte_slice.requires", "contract", "requires self.wf()"),
+        ("Rope::get_byte_slice.ensures", "contract",
+         "ensures (match r {\n"
+         "    Some(o) => o.wf() && range_ok(self.bytes(), lo_of(range.0), hi_of(range.1, self.bytes().len() as int))\n"
+         "      && o.bytes() == self.bytes().subrange(lo_of(range.0), hi_of(range.1, self.bytes().len() as int)),\n"
+         "    None => !range_ok(self.bytes(), lo_of(range.0), hi_of(range.1, self.bytes().len() as int)),\n"
+         "  })"),
+    ], ret="r")
+    gs.body_start("get_byte_slice", "canary.Rope::get_byte_slice", "canary", "proof { assert(false); }")
+    u.contracted += [("Rope::byte_slice", "src/rope.rs"), ("Rope::get_byte_slice", "src/rope.rs")]
+
+
 def build_slice(u):
     a = u.item("src/rope.rs", "fn start_bound_to_range_start(")
     b = u.item("src/rope.rs", "fn end_bound_to_range_end(")
@@ -349,7 +388,9 @@ def build_slice(u):
          "}", regex=True, nth=3)
     g.body_start(FN, "canary.Rope::get_byte_slice_impl", "canary", "proof { assert(false); }")
     g.loop_body_start(FN, 1, "canary.Rope::get_byte_slice_impl.loop1", "canary", "proof { assert(false); }")
+    build_wrappers(u)
     u.raw("}", ("glue", NAME))
+    u.raw(GLUE_CLIENT, ("glue", NAME + ":client"))
     u.contracted += [("Rope::get_byte_slice_impl", "src/rope.rs")]
 
 
@@ -370,6 +411,7 @@ def build(u):
     u.raw("}", ("glue", NAME))
     e = u.item("src/error.rs", "pub enum Error {")
     e.rule("D8", r"\n\s*/// a JSON parsing related failure\n\s*BadJson\(simd_json::Error\),", "")
+    u.raw("// Display for Error is only used by the panic message of byte_slice (unreachable under its contract)\n#[verifier::external]\nimpl std::fmt::Display for Error { fn fmt(&self, f: &mut std::fmt::Formatter<'_>) -> std::fmt::Result { Ok(()) } }", ("glue", NAME))
     u.raw(GLUE_FROM, ("glue", NAME))
     f = u.item("src/rope.rs", "impl<'a> From<&'a str> for Rope<'a> {")
     build_slice(u)
